@@ -73,7 +73,7 @@ fn main() {
     sink.merge(struct_sweep(&run, &[&SCT], &scts, d, &sfx, 96, &extra));
     sink.merge(struct_sweep(&run, &[&SCT_LIST], &lists, d, &sfx, 96, &extra));
     sink.merge(struct_sweep(&run, &[&SCT_LIST], &cat::sct_lists_many(), run.tier.pick(0, 1), &sfx, 32, &extra));
-    for style in [1u8, 3, 4, 6, 7, 8] {
+    for style in [1u8, 3, 4, 6, 7, 8, 10, 11] {
         use vcommon::en::with_fill_style as wfs;
         sink.merge(struct_sweep(&run, &[&SCT], &wfs(style, || cat::scts(false)), 0, &sfx, 96, &extra));
         sink.merge(struct_sweep(&run, &[&SCT_LIST], &wfs(style, || cat::sct_lists(false)), 0, &sfx, 96, &extra));
@@ -136,6 +136,17 @@ fn main() {
         let mut w = W::new();
         w.block(2, "sct_list_len", |w| cat::sct_entry(w, 0, ts, 1, 4, 3, 1));
         sweeps.push(w);
+    }
+    // algorithm pair x signature size (a guard keyed on the algorithm and the size at once)
+    for a in 0..=65535u32 {
+        for n in [0usize, 64, 65, 73, 256, 513] {
+            if a % 3 != (n % 3) as u32 && !(a >> 8 <= 8 && a & 0xff <= 8) {
+                continue;
+            }
+            let mut w = W::new();
+            w.block(2, "sct_list_len", |w| cat::sct_entry(w, 0, 1, 0, (a >> 8) as u8, a as u8, n));
+            sweeps.push(w);
+        }
     }
     let nsweeps = sweeps.len();
     sink.merge(struct_sweep(&run, &[&SCT_LIST], &sweeps, 0, &sfx, 96, &extra));
